@@ -455,7 +455,7 @@ Lemma iface_eq_unk_iff : forall a b, iface_eq a b = Unk <->
   | VFunc f, VFunc g => (f =? g) = false
   | VBuiltin m, VBuiltin n => bytes_eqb m n = false
   | VFunc _, VBuiltin _ | VBuiltin _, VFunc _ => True
-  | VTime _, VTime _ | VOpaque _, VOpaque _ => True
+  | VTime _, VTime _ | VOpaque _, VOpaque _ | VStruct _ _, VStruct _ _ => True
   | _, _ => False
   end.
 Proof.
@@ -635,6 +635,18 @@ Proof.
   intros hosts off a nk name asrt st t st1 Ha.
   assert (Hp : fst (eval hosts off (SSel a nk name asrt) st) = Panic).
   { rewrite eval_SSel, Ha. reflexivity. }
+  split; [exact Hp|]. apply entry_err. right. exact Hp.
+Qed.
+
+(* ... and a Go struct value proper: a name that is not among its selectable fields *)
+Lemma member_of_go_struct_missing_field : forall hosts off a nk name asrt st id fs st1,
+  eval hosts off a st = (Ok (VStruct id fs), st1) -> assoc name fs = None ->
+  fst (eval hosts off (SSel a nk name asrt) st) = Panic /\
+  fst (resolve_entry hosts off (SSel a nk name asrt) st) = Err.
+Proof.
+  intros hosts off a nk name asrt st id fs st1 Ha Hn.
+  assert (Hp : fst (eval hosts off (SSel a nk name asrt) st) = Panic).
+  { rewrite eval_SSel, Ha. cbn [is_null andb]. rewrite Hn. reflexivity. }
   split; [exact Hp|]. apply entry_err. right. exact Hp.
 Qed.
 
